@@ -106,12 +106,20 @@ pub fn gen_case(t: &mut Tape) -> Case {
         _ => t.range(129, 140),
     };
     let obs = t.chance(40);
-    let head = RespHead {
+    let mut head = RespHead {
         v11: !t.chance(25),
         status,
         reason: gen_reason(t),
         fields: gen_fields(t, status, count, obs),
     };
+    // rarely: a head of more than 64 KiB (few fields, one or two very long values)
+    if count <= 8 && t.chance(1) {
+        let n = *t.pick(&[65_530usize, 65_536, 70_000, 100_000]);
+        head.fields.push(Field { name: b"X-Huge".to_vec(), value: vec![b'h'; n], ows_l: b" ".to_vec(), ows_r: vec![] });
+        if t.bool() {
+            head.fields.push(Field::new("X-After", "1"));
+        }
+    }
     let tl = t.small_len(64);
     let tail: Vec<u8> = (0..tl)
         .map(|_| match t.weighted(&[3, 1, 1, 1]) {
@@ -138,7 +146,8 @@ pub fn prefix_lengths(len: usize, line_ends: &[usize], t: &mut Tape) -> Vec<usiz
             }
         }
     }
-    for _ in 0..120 {
+    let samples = if len > 20_000 { 24 } else { 120 };
+    for _ in 0..samples {
         v.push(t.below(len));
     }
     for d in 1..=3 {
@@ -346,7 +355,7 @@ pub fn exec(t: &mut Tape, st: &mut Stats) -> Result<(), String> {
 pub static DEF: PropDef = PropDef {
     id: "C05",
     rule: "random heads: response version 1.0/1.1, status 101..999 (half of them 3xx), reason in {short, none, empty, \
-200 bytes, obs-text}, 0..140 fields (plain, repeated names in other case, Location, Set-Cookie, valid Content-Length / \
+200 bytes, obs-text}, 0..140 fields (1 % of small heads get a 64-100 KiB value; plain, repeated names in other case, Location, Set-Cookie, valid Content-Length / \
 Transfer-Encoding, Connection, empty values, OWS variants, obs-text), 0..64 tail bytes; for heads up to 600 bytes EVERY \
 strict prefix (else every length <= 200, every line end -2..+2, 120 sampled, the last 3) is offered in ascending order to \
 parser::try_parse_response::<128>, one Call<RecvResponse> and one Flow<RecvResponse> (GET/HEAD/POST, request 1.0/1.1): each \
